@@ -2,6 +2,7 @@ import Cardutil.SrcTie.Base
 import Cardutil.Gen.Src
 import Cardutil.Model.Info
 import Cardutil.Props.C17
+import Cardutil.SrcTie.Bits
 /-
   Source tie for `mciipm.block_1014_check` and `mciipm.encoding_check` (C17).
 -/
@@ -71,5 +72,230 @@ theorem C17_source_blocked (recs : List Bytes) :
     Src.block_1014_check ((Writer.listToBytes 1012 true recs).take 2500) = true := by
   rw [block_check_eq]
   exact Props.C17.C17_blocked_writer_output recs
+
+/-! ### `bitmap_check`: a loop with an early return over the bits of a `BitArray` -/
+
+/-- first position (numbered from `k`) whose flag is set and which has no configuration -/
+def scan (cfg : List Nat) : Nat → List Bool → Option Nat
+  | _, [] => none
+  | k, v :: vs => if v && !cfg.contains k then some k else scan cfg (k + 1) vs
+
+/-- the model's `find?` over the flagged element numbers is this scan -/
+theorem find_present (cfg : List Nat) : ∀ (vs : List Bool) (k : Nat),
+    ((List.range vs.length).filterMap (fun i => if vs.getD i false then some (i + k) else none)).find?
+      (fun b => !cfg.contains b) = scan cfg k vs := by
+  intro vs
+  induction vs with
+  | nil => intro k; rfl
+  | cons v vs ih =>
+    intro k
+    rw [List.length_cons, List.range_succ_eq_map, List.filterMap_cons, List.filterMap_map]
+    have hstep : (fun i => if (v :: vs).getD (i + 1) false then some (i + 1 + k) else none) =
+        (fun i => if vs.getD i false then some (i + (k + 1)) else none) := by
+      funext i
+      simp only [List.getD_cons_succ]
+      have : i + 1 + k = i + (k + 1) := by omega
+      rw [this]
+    have hcomp : ((fun i => if (v :: vs).getD i false then some (i + k) else none) ∘ Nat.succ) =
+        (fun i => if vs.getD i false then some (i + (k + 1)) else none) := by
+      rw [← hstep]; rfl
+    rw [hcomp]
+    simp only [List.getD_cons_zero, Nat.zero_add]
+    cases v with
+    | false => simp only [Bool.false_eq_true, if_false, scan, Bool.false_and]; exact ih (k + 1)
+    | true =>
+      simp only [if_true, List.find?_cons, scan, Bool.true_and]
+      cases hc : cfg.contains k with
+      | true => simp only [Bool.not_true, Bool.false_eq_true, if_false]; exact ih (k + 1)
+      | false => simp
+
+theorem bitmapCheck_scan (cfg : List Nat) (bm : Bytes) (h : (Iso.bitsOfBytes bm).length = 128) :
+    Info.bitmapCheck cfg bm = scan cfg 2 ((Iso.bitsOfBytes bm).drop 1) := by
+  unfold Info.bitmapCheck Iso.presentBits
+  dsimp only
+  have hl : ((Iso.bitsOfBytes bm).drop 1).length = 127 := by simp [h]
+  have := find_present cfg ((Iso.bitsOfBytes bm).drop 1) 2
+  rw [hl] at this
+  rw [← this]
+  congr 2
+  funext i
+  simp [List.getD_eq_getElem?_getD, Nat.add_comm]
+
+/-- the reason text for an unconfigured element -/
+def reasonBitmap (b : Nat) : Text :=
+  [66, 105, 116, 109, 97, 112, 32, 117, 115, 101, 115, 32, 68, 69] ++ Rt.strOfInt ((b : Nat) : Int) ++
+    [32, 119, 104, 105, 99, 104, 32, 105, 115, 32, 110, 111, 116, 32, 117, 115, 101, 100, 32, 105, 110, 32, 73, 80, 77]
+
+/-- one pass of the translated loop body (for a state that has not returned yet) -/
+def bitStep (st : Option (Bool × Text)) (p : Int × Bool) : Outcome (Option (Bool × Text)) :=
+  match st with
+  | some r => .ok (some r)
+  | none =>
+    if (p.1 == (0 : Int)) then .ok none
+    else if p.2 then
+      (if (!(Gen.configuredBits.any (fun e => decide (((e : Nat) : Int) = (p.1 + (1 : Int)))))) then
+        .ok (some (false, ([66, 105, 116, 109, 97, 112, 32, 117, 115, 101, 115, 32, 68, 69] ++ (Rt.strOfInt (p.1 + (1 : Int))) ++
+          [32, 119, 104, 105, 99, 104, 32, 105, 115, 32, 110, 111, 116, 32, 117, 115, 101, 100, 32, 105, 110, 32, 73, 80, 77])))
+      else .ok none)
+    else .ok none
+
+theorem forO_returned (l : List (Int × Bool)) (r : Bool × Text) : Rt.forO bitStep l (some r) = .ok (some r) := by
+  induction l with
+  | nil => rfl
+  | cons p l ih => simp only [Rt.forO, bitStep, Outcome.bind, ih]
+
+theorem any_contains (cfg : List Nat) (j : Nat) :
+    cfg.any (fun e => decide (((e : Nat) : Int) = ((j : Nat) : Int) + (1 : Int))) = cfg.contains (j + 1) := by
+  induction cfg with
+  | nil => rfl
+  | cons c cs ih =>
+    simp only [List.any_cons, List.contains_cons, ih]
+    congr 1
+    by_cases h : c = j + 1
+    · subst h; simp
+    · have : ¬ ((c : Int) = (j : Int) + 1) := by omega
+      simp [h, this]
+      exact fun e => h e.symm
+
+theorem loop_scan : ∀ (l : List Bool) (j : Nat), 1 ≤ j →
+    Rt.forO bitStep (Rt.enumerateGo ((j : Nat) : Int) l) none =
+      .ok ((scan Gen.configuredBits (j + 1) l).map (fun b => (false, reasonBitmap b))) := by
+  intro l
+  induction l with
+  | nil => intro j _; rfl
+  | cons v vs ih =>
+    intro j hj
+    have hne : ¬ (((j : Nat) : Int) = 0) := by omega
+    have hstep : Rt.enumerateGo ((j : Nat) : Int) (v :: vs) = ((j : Int), v) :: Rt.enumerateGo (((j + 1 : Nat)) : Int) vs := by
+      simp only [Rt.enumerateGo, Int.natCast_add, Int.natCast_one]
+    rw [hstep]
+    simp only [Rt.forO, bitStep]
+    have hz : (((j : Nat) : Int) == (0 : Int)) = false := by simpa using hne
+    rw [hz]
+    simp only [Bool.false_eq_true, if_false, any_contains]
+    cases v with
+    | false =>
+      simp only [Bool.false_eq_true, if_false, Outcome.bind, scan, Bool.false_and]
+      exact ih (j + 1) (by omega)
+    | true =>
+      simp only [if_true, scan, Bool.true_and]
+      cases hc : Gen.configuredBits.contains (j + 1) with
+      | true =>
+        simp only [Bool.not_true, Bool.false_eq_true, if_false, Outcome.bind]
+        exact ih (j + 1) (by omega)
+      | false =>
+        simp only [Bool.not_false, if_true, Outcome.bind, forO_returned, Option.map_some]
+        have e : ((j : Nat) : Int) + 1 = ((j + 1 : Nat) : Int) := by omega
+        simp only [reasonBitmap, e]
+
+/-- `bitmap_check` on a 16-byte bitmap: (True, no reason) or (False, the reason naming the first unconfigured element) -/
+theorem bitmap_check_eq (bm : Bytes) (h16 : bm.length = 16) (hb : IsBytes bm) :
+    Src.bitmap_check bm = .ok (match Info.bitmapCheck Gen.configuredBits bm with
+      | none => (true, ([] : Text))
+      | some b => (false, reasonBitmap b)) := by
+  have hne : bm ≠ [] := by intro e; rw [e] at h16; simp at h16
+  have hbits : (Iso.bitsOfBytes bm).length = 128 := by
+    have : ∀ (b : Bytes), (Iso.bitsOfBytes b).length = 8 * b.length := by
+      intro b
+      induction b with
+      | nil => rfl
+      | cons x xs ih => simp only [Iso.bitsOfBytes, List.flatMap_cons, List.length_append] at ih ⊢; simp [ih]; omega
+    rw [this, h16]
+  rw [bitmapCheck_scan _ bm hbits]
+  have hfold : Src.bitmap_check bm = Outcome.bind (Src.BitArray_tolist bm) (fun bits =>
+      Outcome.bind (Rt.forO bitStep (Rt.enumerate bits) none) (fun st =>
+        match st with
+        | some r => .ok r
+        | none => .ok (true, ([] : Text)))) := rfl
+  rw [hfold, tolist_eq bm hb hne, bind_ok_eq]
+  match hbs : Iso.bitsOfBytes bm, hbits with
+  | [], hl => simp at hl
+  | b0 :: rest, _ =>
+    have hen : Rt.enumerate (b0 :: rest) = ((0 : Int), b0) :: Rt.enumerateGo ((1 : Nat) : Int) rest := rfl
+    rw [hen]
+    simp only [Rt.forO, bitStep]
+    have : (((0 : Int)) == (0 : Int)) = true := rfl
+    simp only [this, if_true, Outcome.bind, List.drop_succ_cons, List.drop_zero]
+    rw [loop_scan rest 1 (Nat.le_refl 1)]
+    cases scan Gen.configuredBits 2 rest <;> rfl
+
+/-! ### `ipm_info`: the whole inspection, as a dictionary -/
+
+theorem be32_eq_dec : ∀ l : Bytes, Rt.be32 l = be32dec l
+  | [] => rfl
+  | [_] => rfl
+  | [_, _] => rfl
+  | [_, _, _] => rfl
+  | [_, _, _, _] => rfl
+  | _ :: _ :: _ :: _ :: _ :: _ => rfl
+
+/-- the `reason` text of an invalid result (`n` = the first length field, `m` = the configured maximum) -/
+def reasonText (n m : Nat) : Info.Reason → Text
+  | .tooShort => Rt.lit "File does not have sufficient data to be valid"
+  | .firstLengthTooLong =>
+    Rt.lit "First IPM record length (" ++ Rt.strOfInt (n : Int) ++
+      Rt.lit ") exceeds the configured maximum record length (" ++ Rt.strOfInt (m : Int) ++
+      Rt.lit ") which usually indicates a file issue"
+  | .bitmapUsesUnconfigured b => reasonBitmap b
+
+/-- the dictionary `ipm_info` returns for a result of the model -/
+def dictOf (n m : Nat) : Info.Result → Rt.SDict Rt.InfoVal
+  | .invalid r => [(Rt.lit "isValidIPM", .bool false), (Rt.lit "reason", .str (reasonText n m r))]
+  | .valid b e => [(Rt.lit "isValidIPM", .bool true), (Rt.lit "isBlocked", .bool b), (Rt.lit "encoding", .str (encName e))]
+
+/-- `ipm_info` (the function as it stands in `cardutil/mciipm.py`, reading from an in-memory file of
+    bytes) returns exactly the dictionary of the model's result -/
+theorem ipm_info_eq (file : Bytes) (hb : IsBytes file) :
+    Src.ipm_info file = .ok (dictOf (be32dec (file.take 4)) Gen.maxVbsRecordLength
+      (Info.ipmInfo Gen.configuredBits Gen.maxVbsRecordLength Gen.latin1Numeric Gen.cp037Numeric file)) := by
+  unfold Src.ipm_info Info.ipmInfo Info.ipmInfoP
+  have hs : Rt.slice file none (some (2500 : Int)) = file.take 2500 := slice_to _ _ (by decide)
+  simp only [hs]
+  generalize hS : file.take 2500 = s
+  have hsb : IsBytes s := by
+    intro x hx; rw [← hS] at hx; exact hb x (List.mem_of_mem_take hx)
+  have h4 : s.take 4 = file.take 4 := by rw [← hS, List.take_take]; rfl
+  by_cases hlen : s.length < 24
+  · have h1 : decide (Rt.len s < (24 : Int)) = true := by unfold Rt.len; simp; omega
+    simp only [h1, if_true, hlen]
+    rfl
+  · have h1 : decide (Rt.len s < (24 : Int)) = false := by unfold Rt.len; simp; omega
+    simp only [h1, Bool.false_eq_true, if_false, hlen]
+    have hl4 : Rt.slice s none (some (4 : Int)) = s.take 4 := slice_to _ _ (by decide)
+    have hlen4 : (s.take 4).length = 4 := by simp; omega
+    have hun : Rt.unpackI (s.take 4) = .ok ((be32dec (s.take 4) : Nat) : Int) := by
+      unfold Rt.unpackI; rw [if_pos hlen4, be32_eq_dec]
+    rw [hl4, hun, bind_ok_eq]
+    by_cases hmax : Gen.maxVbsRecordLength < be32dec (s.take 4)
+    · have h2 : decide (((be32dec (s.take 4) : Nat) : Int) > ((Gen.maxVbsRecordLength : Nat) : Int)) = true := by
+        simp; omega
+      simp only [h2, if_true, hmax, ← h4]
+      rfl
+    · have h2 : decide (((be32dec (s.take 4) : Nat) : Int) > ((Gen.maxVbsRecordLength : Nat) : Int)) = false := by
+        simp; omega
+      have h3 : decide (((be32dec (s.take 4) : Nat) : Int) < (0 : Int)) = false := by simp
+      simp only [h2, h3, Bool.false_eq_true, if_false, hmax]
+      have hbm : Rt.slice s (some (8 : Int)) (some (24 : Int)) = (s.drop 8).take 16 := by
+        rw [slice_mid _ _ _ (by decide) (by decide)]; rfl
+      have hmti : Rt.slice s (some (4 : Int)) (some (8 : Int)) = (s.drop 4).take 4 := by
+        rw [slice_mid _ _ _ (by decide) (by decide)]; rfl
+      have hbm16 : ((s.drop 8).take 16).length = 16 := by simp; omega
+      have hbmb : IsBytes ((s.drop 8).take 16) := by
+        intro x hx; exact hsb x (List.mem_of_mem_drop (List.mem_of_mem_take hx))
+      rw [hbm, hmti, bitmap_check_eq _ hbm16 hbmb, bind_ok_eq]
+      cases hc : Info.bitmapCheck Gen.configuredBits ((s.drop 8).take 16) with
+      | some b => rfl
+      | none =>
+        simp only [Bool.not_true, Bool.false_eq_true, if_false, block_check_eq, encoding_check_eq]
+        rfl
+
+/-- C17 for the code as translated: a blocked file the library's writer produces from records whose
+    first one starts a valid message header is reported valid and blocked -/
+theorem C17_source_ipm_info_blocked (file : Bytes) (hb : IsBytes file)
+    (b : Bool) (e : Info.Enc)
+    (h : Info.ipmInfo Gen.configuredBits Gen.maxVbsRecordLength Gen.latin1Numeric Gen.cp037Numeric file = .valid b e) :
+    Src.ipm_info file = .ok [(Rt.lit "isValidIPM", .bool true), (Rt.lit "isBlocked", .bool b),
+      (Rt.lit "encoding", .str (encName e))] := by
+  rw [ipm_info_eq file hb, h]; rfl
 
 end Cardutil.SrcTie
